@@ -81,6 +81,11 @@ def shards(tier: str, seed: int):
     for h_ in (("SHA1",) if tier == "quick" else ("SHA1", "SHA256", "SHA384", "SHA512")):
         for env_ in (True, False):
             out.append(["dhwindow", h_, env_])
+    for h_ in (("SHA256",) if tier == "quick" else ("SHA1", "SHA256", "SHA384", "SHA512")):
+        for alg_ in ("ECDH_P256", "ECDH_P384"):
+            out.append(["algconf", h_, alg_])
+        for env_ in (True, False):
+            out.append(["unauth", h_, env_])
     sizes = [65536, 2**20] if tier == "quick" else [65536, 2**20, 2**21, 3 * 2**20, 2**24]
     for lay in ("env", "trail"):
         for api in ("sync", "async"):
@@ -290,6 +295,85 @@ def run_shard(shard, tier, seed, acc) -> None:
         acc.nt_counted(n)
         acc.sample({"DH key_info": len(ki), "announced key lengths": "around (len-8)/3, (len-8)/2, len-8, 65536"})
         return
+    if shard[0] == "algconf":
+        # a public-key blob under an ECDH root key whose key_info is replaced by a well-formed *DH* key structure with public value 1
+        # (shared secret 1 whatever the private key) - and the same with p-1 / 0: the root key says ECDH, so none of it may be used
+        from cryptography.hazmat.primitives import keywrap
+        from cryptography.hazmat.primitives.ciphers.aead import AESGCM
+
+        from ref import cms, gkdi
+
+        n = 0
+        for env_ in (True, False):
+            base = bm.base_blob(seed, shard[1], shard[2], env_)
+            st, v = unprotect(base, base.blob)
+            if st != "ok" or bytes(v) != base.plaintext:
+                acc.violate("algconf.base-does-not-decrypt", ["mut", base.bid, ["algconf", "base"]], {"outcome": st, "value": repr(v)[:100]})
+                continue
+            b = cms.decode(base.blob)
+            kid = gkdi.unpack_keyid(b.keyid)
+            groups = [(8, 0xFFFFFFFFFFFFFFC5, 2), (256, gkdi.RFC5114_P, gkdi.RFC5114_G)]
+            for kl, p_, g_ in groups:
+                for y_, z_ in ((1, 1), (0, 0), (p_ - 1, 1), (p_ - 1, p_ - 1)):
+                    for flags in (kid.flags, kid.flags | 1, kid.flags & ~1):
+                        ki = gkdi.pack_dh_key(kl, p_, g_, y_)
+                        for secret_hash in ("SHA256", "SHA384"):
+                            kek = gkdi.kek_from_shared(base.rk.hash_name, z_.to_bytes(kl, "big"), secret_hash)
+                            cek = b"\x5a" * 32
+                            enc = AESGCM(cek).encrypt(cms.gcm_nonce(b), b"FORGED-ALG", None)
+                            label = ["algconf", kl, str(y_)[:12], flags, secret_hash]
+                            data = cms.encode(b._replace(keyid=gkdi.pack_keyid(kid._replace(key_info=ki, flags=flags)), enc_cek=keywrap.aes_key_wrap(kek, cek), enc_content=enc))
+                            oc = judge(acc, base, label, data, [], "async" if n % 2 else "sync")
+                            acc.outcome("algconf:" + oc.split(":")[0])
+                            n += 1
+        acc.ev(n)
+        acc.nt_counted(n)
+        acc.sample({"root key": shard[2], "key_info replaced by": "FFC DH key blob with y in {0, 1, p-1}", "forgeries": n})
+        return
+    if shard[0] == "unauth":
+        # a reader who is NOT authorised for the blob's SID: the DC answers GetKey with a public-key envelope (no seed key). Nothing decrypts;
+        # in particular not a blob re-keyed from what that reply contains (the group public key is public)
+        import dpapi_ng
+        from cryptography.hazmat.primitives import keywrap
+        from cryptography.hazmat.primitives.ciphers.aead import AESGCM
+
+        from env import refdc, secctx, transport
+        from mc import vloop
+        from ref import cms, dtyp, gkdi
+
+        base = bm.base_blob(seed, shard[1], "nonce", shard[2])
+        b = cms.decode(base.blob)
+        kid = gkdi.unpack_keyid(b.keyid)
+        sd = dtyp.target_sd(dtyp.parse_sid_string(b.sid))
+        pub = gkdi.server_envelope(base.rk, sd, kid.l0, kid.l1, kid.l2, authorised=False)[-1]
+        cands = {"public key blob": pub, "public key blob[:64]": pub[:64], "public key blob[-64:]": pub[-64:], "empty": b"", "zeros64": b"\0" * 64}
+        ft = (bm.POS[0] * 1024 + bm.POS[1] * 32 + bm.POS[2]) * gkdi_B() + 5
+        n = 0
+        datas = [(["unauth", "base"], base.blob)]
+        for name, l2k in cands.items():
+            kek = gkdi.kek_nonce(base.rk.hash_name, l2k, kid.key_info)
+            cek = b"\x77" * 32
+            enc = AESGCM(cek).encrypt(cms.gcm_nonce(b), b"FORGED-UNAUTH", None)
+            datas.append((["unauth", name], cms.encode(b._replace(enc_cek=keywrap.aes_key_wrap(kek, cek), enc_content=enc))))
+        for label, data in datas:
+            for api in ("sync", "async"):
+                for shared in (False, True):
+                    cache = dpapi_ng.KeyCache()
+                    dc = refdc.DC([base.rk], now=bm.POS, authorised=False)
+                    kw = dict(server="dc", username="u", password="p", auth_protocol="ntlm", cache=cache)
+                    with seams.clock(ft), transport.network(dc), secctx.scripted_client(lambda u, p, **k: secctx.ScriptedContext([b"C1"], 16)):
+                        for rep in range(2 if shared else 1):
+                            try:
+                                v = dpapi_ng.ncrypt_unprotect_secret(data, **kw) if api == "sync" else vloop.run(dpapi_ng.async_ncrypt_unprotect_secret(data, **kw))
+                                acc.violate("unauth.decrypted", ["mut", base.bid, label, api], {"returned": bytes(v)[:40].hex(), "call": rep})
+                                acc.outcome("unauth:DECRYPTED")
+                            except Exception as e:  # noqa: BLE001
+                                acc.outcome("unauth:error")
+                            n += 1
+        acc.ev(n)
+        acc.nt_counted(n)
+        acc.sample({"reader": "not authorised for the SID; the DC returns a public-key envelope", "forgeries keyed from": sorted(cands)})
+        return
     if shard[0] == "splice":
         # blobs produced by the library itself in ONE process (same SID, different plaintexts): parts of one transplanted into another
         import dpapi_ng
@@ -464,6 +548,15 @@ def replay(case, seed, acc) -> None:
     _, bid, label = case[:3]
     api = case[3] if len(case) > 3 else "sync"
     acc.ev()
+    if label[0] in ("algconf", "unauth"):
+        parts = bid.split("/")
+        run_shard(["algconf", parts[0], parts[1]] if label[0] == "algconf" else ["unauth", parts[0], parts[2] == "env"], "quick", seed, acc)
+        for kk in list(acc.violations):
+            acc.violations[kk] = [e for e in acc.violations[kk] if e["case"][2] == list(label)]
+            if not acc.violations[kk]:
+                del acc.violations[kk]
+        acc.violation_count = sum(len(v) for v in acc.violations.values())
+        return
     if label[0] == "dhwindow":
         parts = bid.split("/")
         run_shard(["dhwindow", parts[0], parts[2] == "env"], "quick", seed, acc)
